@@ -74,7 +74,7 @@ def _replay_all(rep, st, pid, tag, classes, sample_every=None, on_sample=None):
         real = O.replay_state(rep, s, pid, tag)
         if on_sample is not None and real is not None and s["hist"] and counts[last] % sample_every == 1:
             on_sample(s, real)
-        if n <= 2 and s["hist"]:
+        if s["hist"] and counts[last] == 1:
             rep.sample(dict(config=tag, base=O._js(s["base"]), hist=O._js(s["hist"]), expected=O._js(s["cur"]) if s["kind"] == "R" else "SOC"))
     if n != st["distinct"]:
         raise MachineryError(f"{tag}: dump has {n} states, TLC reported {st['distinct']}")
@@ -141,12 +141,16 @@ def check_c05(rep, thorough):
             if d2 > 1e-8:
                 rep.violation(f"{O.OP_SITE[s['hist'][-1]['op']]}:run", dict(base=O._js(s["base"]), hist=O._js(s["hist"]), deviation=d2))
 
-    cfgs = [("c05_reorder", ["Reorder"], dict(OPS='{"Reorder"}', NWS="{1, 2, 3}" if thorough else "{1, 2}", MAXHOPS=2 if thorough else 1,
-                                              NEPS=2, NCEN=3 if thorough else 2, WITHX="{FALSE, TRUE}"), 40 if thorough else 25),
-            ("c05_rotate", ["Rotate"], dict(OPS='{"Rotate"}', NWS="{2, 3}" if thorough else "{2}", MAXHOPS=1, NEPS=2 if thorough else 1, NCEN=3,
-                                            PHS="{0, 1, 2, 3}" if thorough else "{0, 1}", WITHX="{FALSE, TRUE}" if thorough else "{FALSE}"), 60 if thorough else 30),
-            ("c05_chain", ["Reorder", "Rotate"], dict(OPS='{"Reorder", "Rotate"}', MAXLEN=2, NWS="{2}", KDIRS=2 if thorough else 1, MAXHOPS=1, NEPS=1, NCEN=1,
-                                                      PHS="{1, 2}" if thorough else "{1}"), 80 if thorough else 40)]
+    if thorough:
+        cfgs = [("c05_reorder", ["Reorder"], dict(OPS='{"Reorder"}', NWS="{1, 2, 3}", MAXHOPS=1, NEPS=2, NCEN=2, WITHX="{FALSE, TRUE}"), 40),
+                ("c05_reorder_2hops", ["Reorder"], dict(OPS='{"Reorder"}', NWS="{2}", MAXHOPS=2, NEPS=1, NCEN=2, WITHX="{FALSE}"), 60),
+                ("c05_rotate", ["Rotate"], dict(OPS='{"Rotate"}', NWS="{2}", MAXHOPS=1, NEPS=2, NCEN=3, PHS="{0, 1, 2, 3}", WITHX="{FALSE, TRUE}"), 100),
+                ("c05_rotate_3", ["Rotate"], dict(OPS='{"Rotate"}', NWS="{3}", KDIRS=1, MAXHOPS=1, NEPS=1, NCEN=2, PHS="{0, 1}"), 60),
+                ("c05_chain", ["Reorder", "Rotate"], dict(OPS='{"Reorder", "Rotate"}', MAXLEN=2, NWS="{2}", KDIRS=2, MAXHOPS=1, NEPS=1, NCEN=1, PHS="{1, 2}"), 80)]
+    else:
+        cfgs = [("c05_reorder", ["Reorder"], dict(OPS='{"Reorder"}', NWS="{1, 2}", MAXHOPS=1, NEPS=2, NCEN=2, WITHX="{FALSE, TRUE}"), 25),
+                ("c05_rotate", ["Rotate"], dict(OPS='{"Rotate"}', NWS="{2}", MAXHOPS=1, NEPS=1, NCEN=3, PHS="{0, 1}", WITHX="{FALSE}"), 30),
+                ("c05_chain", ["Reorder", "Rotate"], dict(OPS='{"Reorder", "Rotate"}', MAXLEN=2, NWS="{2}", KDIRS=1, MAXHOPS=1, NEPS=1, NCEN=1, PHS="{1}"), 40)]
     for name, classes, kw, every in cfgs:
         st = O.run_ops(rep, name, w, **kw)
         if st is None:
@@ -230,14 +234,17 @@ def check_c25(rep, thorough):
         if dev > 1e-8:
             rep.violation("System_R.double_spin:evaluate_k", dict(base=O._js(s["base"]), compared=what, deviation=dev))
 
-    st = O.run_ops(rep, "c25_double", w, OPS='{"DoubleSpin", "Reorder"}', MAXLEN=2, NWS="{1, 2}" if thorough else "{1}", MAXHOPS=2 if thorough else 1,
+    st = O.run_ops(rep, "c25_double", w, OPS='{"DoubleSpin", "Reorder"}', MAXLEN=2, NWS="{1, 2}" if thorough else "{1}", MAXHOPS=1,
                    WITHX="{FALSE, TRUE}", NEPS=2, NCEN=2)
     if st:
         _replay_all(rep, st, "C25", "c25_double", ["base", "DoubleSpin", "Reorder"], sample_every=10, on_sample=on_sample)
-    st = O.run_ops(rep, "c25_soc", w, OPS='{"MakeSOC", "SetSOC", "ToPlainR"}', MAXLEN=3, NWS="{1, 2}" if thorough else "{1}", MAXHOPS=1, NEPS=1, NCEN=1,
-                   KDIRS=2, ANGM="{0, 1, 3}" if thorough else "{1}", ANGN="{0, 1, 2}" if thorough else "{0, 1}", ALS="{1, 2}" if thorough else "{1}", MAXSOC=1)
-    if st:
-        _replay_all(rep, st, "C25", "c25_soc", ["MakeSOC", "SetSOC", "ToPlainR"])
+    socs = [("c25_soc", dict(NWS="{1}", MAXHOPS=1, KDIRS=2, ANGM="{1, 3}", ANGN="{0, 1, 2}", ALS="{2}")),
+            ("c25_soc_2", dict(NWS="{2}", MAXHOPS=0, KDIRS=1, ANGM="{1}", ANGN="{0, 1}", ALS="{1}"))] if thorough else \
+           [("c25_soc", dict(NWS="{1}", MAXHOPS=1, KDIRS=1, ANGM="{1}", ANGN="{1}", ALS="{1}"))]
+    for name, kw in socs:
+        st = O.run_ops(rep, name, w, OPS='{"MakeSOC", "SetSOC", "ToPlainR"}', MAXLEN=3, NEPS=1, NCEN=1, MAXSOC=1, **kw)
+        if st:
+            _replay_all(rep, st, "C25", name, ["MakeSOC", "SetSOC", "ToPlainR"])
     O.sensitivity(rep, "c25_double_block_order", "LawDoubleSpin", w, OPS='{"DoubleSpin"}', NWS="{2}", Variant='"blockspin"')
 
     # ---- Pauli algebra, all axes
@@ -324,7 +331,25 @@ def check_c25(rep, thorough):
         maxdev = max(maxdev, dev)
         if dev > 1e-9:
             rep.violation("SOC.get_pauli_rotated:numeric", dict(theta=th, phi=ph, deviation=float(dev)))
-    rep.part("numeric_only", random_axes=nn, max_deviation=float(maxdev), tolerance=1e-9)
+    # random non-integer up/down systems at random k: spectrum of the SOC-free SystemSOC = union of the two spectra
+    n2, dev2 = (40 if thorough else 6), 0.0
+    for _ in range(n2):
+        nw = rng.choice([1, 2, 3])
+        up, dn = RND.rand_sys(rng, nw=nw, with_x=False), RND.rand_sys(rng, nw=nw, with_x=False)
+        ju, jd = W.sys_json(up), W.sys_json(dn)
+        for a_, f in ((up, 0.37), (dn, 0.61)):
+            for R in a_["rs"]:
+                a_["H"][R] = a_["H"][R] * f
+        soc, _ = RND.make_real_soc(up, dn)
+        k4 = [tuple(4 * nprng.rand(3))]
+        e = np.sort(np.array(W.data_k_list(soc, k4).E_K)[0])
+        eu = np.array(W.data_k_list(W.build(up), k4).E_K)[0]
+        ed = np.array(W.data_k_list(W.build(dn), k4).E_K)[0]
+        d = float(np.max(np.abs(e - np.sort(np.concatenate([eu, ed])))))
+        dev2 = max(dev2, d)
+        if d > 1e-9:
+            rep.violation("SystemSOC:union_of_spectra:numeric", dict(up=ju, dn=jd, scale=[0.37, 0.61], k=[x / 4 for x in k4[0]], deviation=d))
+    rep.part("numeric_only", random_axes=nn, max_deviation=float(maxdev), tolerance=1e-9, random_soc_free_systems=n2, max_deviation_spectra=dev2)
     return rep.finish()
 
 
@@ -339,7 +364,9 @@ def check_c26(rep, thorough):
     cfgs = [("c26_interp", dict(OPS='{"Interpolate"}', NWS="{1, 2}" if thorough else "{2}", SC=2, DEN=2, WITHX="{FALSE, TRUE}", MAXHOPS=1, NEPS=1,
                                 NCEN=2 if thorough else 1, KDIRS=2 if thorough else 1))]
     if thorough:
-        cfgs.append(("c26_interp_quarters", dict(OPS='{"Interpolate", "Reorder"}', MAXLEN=2, NWS="{2}", SC=4, DEN=4, WITHX="{FALSE, TRUE}", MAXHOPS=1, NEPS=1, NCEN=1, KDIRS=1)))
+        cfgs.append(("c26_interp_quarters", dict(OPS='{"Interpolate"}', NWS="{2}", SC=4, DEN=4, WITHX="{FALSE, TRUE}", MAXHOPS=1, NEPS=1, NCEN=1, KDIRS=1)))
+        cfgs.append(("c26_interp_chain", dict(OPS='{"Interpolate", "Reorder"}', MAXLEN=2, NWS="{2}", SC=2, DEN=2, WITHX="{FALSE}", MAXHOPS=1, MAXHOPS2=0,
+                                              NEPS=1, NCEN=1, KDIRS=1)))
     for name, kw in cfgs:
         st = O.run_ops(rep, name, w, **kw)
         if st:
